@@ -187,8 +187,15 @@ func (s *Server) sendTransaction(t Transaction) error {
 		return nil
 	}
 
-	_, err := io.Copy(client.Connection, &t)
+	// Serialize the transaction first and hand it to the connection with a single Write call.  Transactions
+	// are sent from one goroutine each, so a transaction written in several pieces (io.Copy uses a 32 KiB
+	// buffer) could be interleaved with another transaction for the same client.
+	b, err := io.ReadAll(&t)
 	if err != nil {
+		return fmt.Errorf("failed to serialize transaction for client %v: %v", t.ClientID, err)
+	}
+
+	if _, err := client.Connection.Write(b); err != nil {
 		return fmt.Errorf("failed to send transaction to client %v: %v", t.ClientID, err)
 	}
 
